@@ -458,3 +458,62 @@ pub fn max_suit_count(c: &[u8]) -> u32 {
     }
     *n.iter().max().unwrap()
 }
+
+/// Sequential enumeration of all N-subsets of 0..52 in lexicographic order with their running index.
+pub fn for_each_subset<const N: usize>(mut f: impl FnMut(&[u8; N], u32)) {
+    let mut c = [0u8; N];
+    for j in 0..N {
+        c[j] = j as u8;
+    }
+    let mut id = 0u32;
+    loop {
+        f(&c, id);
+        id += 1;
+        let mut i = N;
+        loop {
+            if i == 0 {
+                return;
+            }
+            i -= 1;
+            let maxv = 52 - (N - i) as u8;
+            if c[i] < maxv {
+                c[i] += 1;
+                for j in (i + 1)..N {
+                    c[j] = c[j - 1] + 1;
+                }
+                break;
+            }
+        }
+    }
+}
+
+fn binom(n: u64, k: u64) -> u64 {
+    if k > n {
+        return 0;
+    }
+    let mut r = 1u64;
+    for i in 0..k {
+        r = r * (n - i) / (i + 1);
+    }
+    r
+}
+
+/// the `id`-th N-subset of 0..52 in lexicographic order
+pub fn nth_subset<const N: usize>(mut id: u64) -> [u8; N] {
+    let mut c = [0u8; N];
+    let mut next = 0u64;
+    for i in 0..N {
+        let mut v = next;
+        loop {
+            let cnt = binom(51 - v, (N - 1 - i) as u64);
+            if id < cnt {
+                break;
+            }
+            id -= cnt;
+            v += 1;
+        }
+        c[i] = v as u8;
+        next = v + 1;
+    }
+    c
+}
